@@ -411,6 +411,12 @@ func Expand(job Job) Res {
 			}
 			notes = x.AllNotes()
 			f := step(x, t, op)
+			if f == nil || f.Kind == "error" {
+				// the explorations read the file through the mirror mapping: once per execution it is compared with the real file
+				if cf := x.Coherent(); cf != nil {
+					f = cf
+				}
+			}
 			notes = x.AllNotes()
 			s = Succ{Op: op, Notes: x.AllNotes()}
 			if f != nil && f.Kind != "error" {
